@@ -62,6 +62,8 @@ Definition allowed_callees : list (string * string) :=
     ("malloc", "libc allocator, thread-safe");
     ("free", "libc allocator, thread-safe");
     ("std::swap", "swaps its two reference arguments (recorded as accesses by the translator)");
+    ("realloc", "libc allocator, thread-safe");
+    ("CodeWriterUtils::write_offset", "function of its arguments only (C17): patches the caller's code buffer");
     ("VirtMem::alloc", "mmap wrapper; static state: atomics only (WritableGlobals)");
     ("VirtMem::release", "munmap wrapper");
     ("VirtMem::alloc_dual_mapping", "mmap/memfd wrapper; static state: atomics + idempotent volatile flag (WritableGlobals)");
